@@ -55,7 +55,7 @@ fn col(kind: Kind, dict: Dict, layout: Layout, table: &[Vec<u8>], sel: &[u32], p
 }
 
 /// The string haystack families (plain / 13-byte suffix / 13-byte prefix) with every encoding + layout.
-/// Full-size columns (all haystacks of length <= hay_len) exist for the six main code paths; the
+/// Full-size columns (all haystacks of length <= hay_len) exist for the five main code paths; the
 /// remaining encoding x layout combinations and the long-affix families use all haystacks of length
 /// <= 2 (complete sets too, only smaller).
 pub fn build_str_families(alpha: &Alpha, hays: &[String]) -> Vec<Family> {
@@ -70,14 +70,15 @@ pub fn build_str_families(alpha: &Alpha, hays: &[String]) -> Vec<Family> {
         let short_asc: Vec<u32> = short.iter().copied().filter(|&i| table[i as usize].is_ascii()).collect();
         let mut cols = vec![
             col(Kind::Utf8, Dict::None, Layout::Compact, &table, &all, false, false, ""),
-            col(Kind::Utf8, Dict::None, Layout::Sliced, &table, &all, true, false, "dict-patterns"),
-            col(Kind::LargeUtf8, Dict::None, Layout::SlicedNulls, &table, &all, false, false, ""),
+            col(Kind::Utf8, Dict::None, Layout::SlicedNulls, &table, &all, true, false, "dict-patterns"),
             col(Kind::Utf8View, Dict::None, Layout::Compact, &table, &all, false, false, ""),
             col(Kind::Utf8View, Dict::None, Layout::SlicedNulls, &table, &all, false, false, ""),
             col(Kind::Utf8, Dict::I32, Layout::SlicedNulls, &table, &all, false, false, ""),
             // smaller complete sets for the remaining encoding x layout combinations
             col(Kind::Utf8, Dict::None, Layout::Nulls, &table, &short, false, false, "len<=2"),
+            col(Kind::Utf8, Dict::None, Layout::Sliced, &table, &short, false, false, "len<=2"),
             col(Kind::LargeUtf8, Dict::None, Layout::Compact, &table, &short, false, false, "len<=2"),
+            col(Kind::LargeUtf8, Dict::None, Layout::SlicedNulls, &table, &short, false, false, "len<=2"),
             col(Kind::LargeUtf8, Dict::None, Layout::Sliced, &table, &short, true, false, "len<=2/dict-patterns"),
             col(Kind::Utf8View, Dict::None, Layout::Sliced, &table, &short, false, false, "len<=2"),
             col(Kind::Utf8View, Dict::None, Layout::Nulls, &table, &short, false, false, "len<=2"),
